@@ -131,19 +131,51 @@ Proof.
   now apply assoc_filter_other.
 Qed.
 
+(* what a step may do to the datum definitions, as far as the helper cares *)
+Record mframe (b b' : builder) : Prop := {
+  mf_len : length (b_ds b) <= length (b_ds b');
+  mf_meta : forall i, i < length (b_ds b) -> same5 (getd (b_ds b) i) (getd (b_ds b') i) }.
+Lemma same5_refl x : same5 x x.
+Proof. unfold same5. auto. Qed.
+Lemma same5_trans x y z : same5 x y -> same5 y z -> same5 x z.
+Proof. unfold same5. intros (A1 & A2 & A3 & A4 & A5) (B1 & B2 & B3 & B4 & B5). repeat split; congruence. Qed.
+Lemma mframe_refl b : mframe b b.
+Proof. constructor; auto. intros. apply same5_refl. Qed.
+Lemma mframe_trans a b c : mframe a b -> mframe b c -> mframe a c.
+Proof.
+  intros [L1 M1] [L2 M2]. constructor; [lia|]. intros i Hi.
+  eapply same5_trans; [apply M1; auto|apply M2; lia].
+Qed.
+
+(* Parts 2 and 3 are stated over an abstract invariant of the TARGET builder and an abstract class of closing
+   strategies, instantiated below for the native builder (inv12, the four shipped strategies) and for the
+   generic builder (a set-level invariant, the two generic strategies). *)
+Section Abstract.
+Variable Inv : builder -> Prop.
+Variable okS : strat -> Prop.
+Definition rok (r : req) : Prop :=
+  match r with Add _ _ _ a _ => (1 <= a)%N | Close s => okS s | _ => True end.
+Hypothesis H_empty : Inv empty_builder.
+Hypothesis H_step : forall b r, rok r -> Inv b -> Inv (fst (step b r)).
+Hypothesis H_frame : forall b r, rok r -> Inv b -> mframe b (fst (step b r)).
+Hypothesis H_cur_lt : forall b i, Inv b -> In i (current_data b) -> i < length (b_ds b).
+Hypothesis H_close : forall b s, okS s -> Inv b -> has_pending_changes b = true ->
+  exists dt ds', step b (Close s) = (mkBuilder ds' (b_vs b ++ [dt]) [] [], RVariant (length (b_vs b))) /\
+                 Permutation dt (current_data b).
+
 (* the removals: every mapped identifier is in the target's last variant and not yet removed *)
 Lemma conv_removes_ok m : forall rm b,
-  inv12 b -> b_add b = [] ->
+  Inv b -> b_add b = [] ->
   (forall d, In d rm -> exists d', assoc m d = Some d' /\ In d' (last_variant b) /\ ~ In d' (b_rm b)) ->
   NoDup (map (mget m) rm) ->
-  exists b', conv_removes m b rm = COk b' /\ inv12 b' /\ b_ds b' = b_ds b /\ b_vs b' = b_vs b /\
+  exists b', conv_removes m b rm = COk b' /\ Inv b' /\ b_ds b' = b_ds b /\ b_vs b' = b_vs b /\
              b_add b' = [] /\ b_rm b' = b_rm b ++ map (mget m) rm.
 Proof.
   induction rm as [|d r IH]; intros b I Ha Hd Hn; cbn [conv_removes].
   - exists b. rewrite app_nil_r. split; [reflexivity|]. split; [exact I|]. auto.
   - destruct (Hd d (or_introl eq_refl)) as (d' & Em & Hl & Hr). rewrite Em.
     assert (Eg : mget m d = d') by (unfold mget; now rewrite Em).
-    pose proof (step_inv12 b (Remove d') Logic.I I) as I1.
+    pose proof (H_step b (Remove d') Logic.I I) as I1.
     assert (Es : step b (Remove d') = (mkBuilder (b_ds b) (b_vs b) (b_add b) (b_rm b ++ [d']), RUnit)).
     { simpl. destruct (b_vs b) eqn:Ev.
       - unfold last_variant in Hl. rewrite Ev in Hl. destruct Hl.
@@ -172,11 +204,11 @@ Definition sname (src : defs) (d : id) := d_name (getd src d).
 
 (* the additions *)
 Lemma conv_adds_ok src : forall add m b,
-  inv12 b ->
+  Inv b ->
   (forall d, In d add -> d < length src /\ (1 <= al src d)%N) ->
   NoDup add -> NoDup (map (sname src) add) ->
   (forall d c, In d add -> In c (current_data b) -> d_name (getd (b_ds b) c) <> sname src d) ->
-  exists m' b', conv_adds src m b add = COk (m', b') /\ inv12 b' /\ frame b b' /\
+  exists m' b', conv_adds src m b add = COk (m', b') /\ Inv b' /\ mframe b b' /\
     b_vs b' = b_vs b /\ b_rm b' = b_rm b /\ b_add b' = b_add b ++ map (mget m') add /\
     (forall k, ~ In k add -> assoc m' k = assoc m k) /\
     (forall d, In d add -> exists i, assoc m' d = Some i /\ length (b_ds b) <= i < length (b_ds b') /\
@@ -184,13 +216,13 @@ Lemma conv_adds_ok src : forall add m b,
     NoDup (map (mget m') add).
 Proof.
   induction add as [|d r IH]; intros m b I Hlt Hnd Hnn Hfresh; cbn [conv_adds].
-  - exists m, b. rewrite app_nil_r. split; [reflexivity|]. split; [exact I|]. split; [apply frame_refl|].
+  - exists m, b. rewrite app_nil_r. split; [reflexivity|]. split; [exact I|]. split; [apply mframe_refl|].
     split; [reflexivity|]. split; [reflexivity|]. split; [reflexivity|]. split; [auto|]. split; [intros d []|constructor].
   - destruct (Hlt d (or_introl eq_refl)) as [Hd Hal].
     replace (length src <=? d) with false by (symmetry; apply Nat.leb_gt; exact Hd).
     set (x := getd src d).
-    assert (Hr : req_ok (Add (d_name x) (d_ty x) (d_size x) (d_align x) (d_uninit x))) by exact Hal.
-    pose proof (step_inv12 b _ Hr I) as I1. pose proof (step_facts b _ Hr (i_wf _ I)) as [_ F1].
+    assert (Hr : rok (Add (d_name x) (d_ty x) (d_size x) (d_align x) (d_uninit x))) by exact Hal.
+    pose proof (H_step b _ Hr I) as I1. pose proof (H_frame b _ Hr I) as F1.
     assert (Hnone : current_by_name b (d_name x) = None).
     { apply find_name_none_intro. intros c Hc _. apply (Hfresh d c (or_introl eq_refl) Hc). }
     cbn [step] in *. rewrite Hnone in *. cbn [fst] in I1, F1.
@@ -207,21 +239,20 @@ Proof.
     + intros e c He Hc. unfold b1, current_data, last_variant in Hc. simpl in Hc.
       rewrite app_assoc in Hc. apply in_app_or in Hc. destruct Hc as [Hc|[<-|[]]].
       * assert (Hc' : In c (current_data b)) by exact Hc.
-        simpl. rewrite getd_app_old by (apply (i_cur_lt _ I c Hc')). apply Hfresh; auto. now right.
+        simpl. rewrite getd_app_old by (apply (H_cur_lt _ c I Hc')). apply Hfresh; auto. now right.
       * simpl. rewrite Hnew. simpl. intro Eq. apply Hny. apply in_map_iff. exists e. split; auto.
     + exists m', b'. split; [exact E|]. split; [exact I'|].
       assert (Hmd : assoc m' d = Some i) by (rewrite Hout by exact Hy; apply assoc_set_same).
-      split; [eapply frame_trans; [exact (i_wf _ I)|exact F1|exact F']|].
+      split; [eapply mframe_trans; [exact F1|exact F']|].
       split; [rewrite E1; reflexivity|]. split; [rewrite E2; reflexivity|].
       split; [rewrite E3; simpl; rewrite <- app_assoc; simpl; unfold mget at 2; now rewrite Hmd|].
       split; [intros k Hk; rewrite Hout by (intro Hq; apply Hk; now right); apply assoc_set_other; intro Hq; apply Hk; left; congruence|].
-      pose proof (fr_len _ _ F') as Hlen. simpl in Hlen. rewrite app_length in Hlen. simpl in Hlen.
+      pose proof (mf_len _ _ F') as Hlen. simpl in Hlen. rewrite app_length in Hlen. simpl in Hlen.
       split.
       * intros e [<-|He].
         -- exists i. split; [exact Hmd|]. split; [unfold i; lia|].
-           destruct (fr_meta _ _ F' i) as (A1 & A2 & A3 & A4 & A5); [simpl; rewrite app_length; simpl; unfold i; lia|].
-           unfold size, al in *. simpl in A1, A2, A3, A4, A5. rewrite Hnew in *. simpl in *.
-           unfold same5. fold x. repeat split; congruence.
+           pose proof (mf_meta _ _ F' i) as S5. simpl in S5. rewrite Hnew in S5.
+           apply S5. rewrite app_length. simpl. unfold i. lia.
         -- destruct (Hin e He) as (j & Ej & Hj & S5). exists j. split; [exact Ej|]. split; [|exact S5].
            simpl in Hj. rewrite app_length in Hj. simpl in Hj. unfold i. lia.
       * simpl. constructor; [|exact Hnd2]. unfold mget at 1. rewrite Hmd. intro Hc.
@@ -287,7 +318,7 @@ Proof.
 Qed.
 
 Record tinv (src : defs) (seen : list (list id)) (m : list (id * id)) (b : builder) : Prop := {
-  t_inv : inv12 b;
+  t_inv : Inv b;
   t_add : b_add b = [];
   t_rm : b_rm b = [];
   t_vs : Forall2 (fun v' v => Permutation v' (map (mget m) v)) (b_vs b) seen;
@@ -295,11 +326,8 @@ Record tinv (src : defs) (seen : list (list id)) (m : list (id * id)) (b : build
             exists i', assoc m i = Some i' /\ i' < length (b_ds b) /\ same5 (getd src i) (getd (b_ds b) i');
   t_inj : forall v1 v2 i1 i2, In v1 seen -> In v2 seen -> In i1 v1 -> In i2 v2 -> mget m i1 = mget m i2 -> i1 = i2 }.
 
-Lemma same5_frame b b' x i : frame b b' -> i < length (b_ds b) -> same5 x (getd (b_ds b) i) -> same5 x (getd (b_ds b') i).
-Proof.
-  intros F Hi (A1 & A2 & A3 & A4 & A5). destruct (fr_meta _ _ F i Hi) as (B1 & B2 & B3 & B4 & B5).
-  unfold size, al in *. unfold same5. repeat split; congruence.
-Qed.
+Lemma same5_frame b b' x i : mframe b b' -> i < length (b_ds b) -> same5 x (getd (b_ds b) i) -> same5 x (getd (b_ds b') i).
+Proof. intros F Hi S. eapply same5_trans; [exact S|apply (mf_meta _ _ F i Hi)]. Qed.
 
 Definition pdata (prev : option (list id)) : list id := match prev with Some p => p | None => [] end.
 
@@ -311,23 +339,8 @@ Proof.
   - destruct (exists_last (l := x :: r) ltac:(discriminate)) as (l' & a & E). rewrite E, last_last. apply in_or_app. simpl. auto.
 Qed.
 
-(* closing with pending changes *)
-Lemma close_pending b s : native s -> inv12 b -> has_pending_changes b = true ->
-  exists dt ds', step b (Close s) = (mkBuilder ds' (b_vs b ++ [dt]) [] [], RVariant (length (b_vs b))) /\
-                 Permutation dt (current_data b).
-Proof.
-  intros Hs I HP. pose proof (i_wf _ I) as W.
-  assert (Hperm : Permutation (fst (run_strat s (last_variant b) (b_add b) (b_rm b) (b_ds b))) (current_data b)).
-  { pose proof (wf_pre b W) as Hpre.
-    destruct (run_strat_post s _ _ _ Hs Hpre (b_rm b) (last_variant b) eq_refl) as [_ Q2 _ _ _].
-    rewrite Q2. unfold current_data, remove_data. apply Permutation_app_comm. }
-  cbn [step]. rewrite HP.
-  destruct (run_strat s (last_variant b) (b_add b) (b_rm b) (b_ds b)) as [dt ds'] eqn:ERS.
-  exists dt, ds'. split; [reflexivity|exact Hperm].
-Qed.
-
 Lemma conv_variants_ok src s :
-  native s -> (forall i, i < length src -> (1 <= al src i)%N) ->
+  okS s -> (forall i, i < length src -> (1 <= al src i)%N) ->
   forall rest seen m vm b,
   (forall v, In v (seen ++ rest) -> NoDup v /\ (forall i, In i v -> i < length src) /\ names_nodup src v) ->
   chain seen (lastopt None seen) rest ->
@@ -414,9 +427,9 @@ Proof.
           destruct to_rm; [destruct Hi|]. simpl. now rewrite orb_true_r.
         + assert (Hi : In i to_add) by (apply filter_In; split; auto; apply negb_true_iff, mem_false; auto).
           destruct to_add; [destruct Hi|]. simpl. now rewrite !orb_true_r. }
-    destruct (close_pending b2 s Hs I2 HP) as (dt & ds' & ES & Hperm).
-    pose proof (step_inv12 b2 (Close s) Hs I2) as I3.
-    destruct (step_facts b2 (Close s) Hs (i_wf _ I2)) as [_ F3].
+    destruct (H_close b2 s Hs I2 HP) as (dt & ds' & ES & Hperm).
+    pose proof (H_step b2 (Close s) Hs I2) as I3.
+    pose proof (H_frame b2 (Close s) Hs I2) as F3.
     rewrite ES in *. cbn [fst] in I3, F3.
     set (b3 := mkBuilder ds' (b_vs b2 ++ [dt]) [] []) in *.
     rewrite V2, V1, Hlen.
@@ -438,8 +451,8 @@ Proof.
         unfold g, g1, mget. now rewrite (Hagree p e (Hpseen e He) He). }
       rewrite Eg, <- map_app. apply Permutation_map. apply split_perm; auto. }
     (* --- the rest of the loop *)
-    assert (Hlt12 : length (b_ds b) <= length (b_ds b2)) by (rewrite <- D1; apply (fr_len _ _ F2)).
-    assert (F13 : frame b1 b3) by (eapply frame_trans; [exact (i_wf _ I1)|exact F2|exact F3]).
+    assert (Hlt12 : length (b_ds b) <= length (b_ds b2)) by (rewrite <- D1; apply (mf_len _ _ F2)).
+    assert (F13 : mframe b1 b3) by (eapply mframe_trans; [exact F2|exact F3]).
     assert (T3 : tinv src (seen ++ [v]) m1 b3).
     { constructor; auto.
       - simpl. apply Forall2_app; [|constructor; [exact Hdt|constructor]].
@@ -448,15 +461,15 @@ Proof.
         apply map_ext_in. intros i Hi. unfold mget. now rewrite (Hagree u i Hu Hi).
       - intros u i Hu Hi. apply in_app_or in Hu. destruct Hu as [Hu|[<-|[]]].
         + destruct (Tdom u i Hu Hi) as (i' & Em & Hi' & S5). exists i'. rewrite (Hagree u i Hu Hi).
-          split; [exact Em|]. pose proof (fr_len _ _ F13). split; [rewrite D1 in *; lia|].
+          split; [exact Em|]. pose proof (mf_len _ _ F13). split; [rewrite D1 in *; lia|].
           apply (same5_frame b1 b3); auto; rewrite D1; auto.
         + destruct (in_dec Nat.eq_dec i p) as [Hip|Hip].
           * destruct (Tdom p i (Hpseen i Hip) Hip) as (i' & Em & Hi' & S5). exists i'. rewrite (Hagree p i (Hpseen i Hip) Hip).
-            split; [exact Em|]. pose proof (fr_len _ _ F13). split; [rewrite D1 in *; lia|].
+            split; [exact Em|]. pose proof (mf_len _ _ F13). split; [rewrite D1 in *; lia|].
             apply (same5_frame b1 b3); auto; rewrite D1; auto.
           * assert (Hia : In i to_add) by (apply filter_In; split; auto; apply negb_true_iff, mem_false; auto).
             destruct (Hin i Hia) as (j & Ej & Hj & S5). exists j. split; [exact Ej|].
-            pose proof (fr_len _ _ F3). split; [simpl in *; lia|]. apply (same5_frame b2 b3); auto; lia.
+            pose proof (mf_len _ _ F3). split; [simpl in *; lia|]. apply (same5_frame b2 b3); auto; lia.
       - (* injectivity: old images are below length (b_ds b), new ones at or above *)
         assert (Hold : forall u i, In u seen -> In i u -> mget m1 i = mget m i /\ mget m i < length (b_ds b)).
         { intros u i Hu Hi. unfold mget at 1 2. rewrite (Hagree u i Hu Hi).
@@ -489,16 +502,13 @@ Qed.
 
 Lemma tinv_empty src : tinv src [] [] empty_builder.
 Proof.
-  constructor; simpl; auto.
-  - apply inv12_empty.
-  - intros v i [].
-  - intros v1 v2 i1 i2 [].
+  constructor; simpl; auto; [intros v i []|intros v1 v2 i1 i2 []].
 Qed.
 
-Theorem convert_iso ds vs s : src_ok ds vs -> native s ->
+Theorem convert_iso_abs ds vs s : src_ok ds vs -> okS s ->
   exists m tgt,
     convert (ds, vs) s empty_builder = COk (map (fun k => (k, k)) (seq 0 (length vs)), m, tgt) /\
-    b_add tgt = [] /\ b_rm tgt = [] /\ inv12 tgt /\
+    b_add tgt = [] /\ b_rm tgt = [] /\ Inv tgt /\
     Forall2 (fun v' v => Permutation v' (map (mget m) v)) (b_vs tgt) vs /\
     (forall v i, In v vs -> In i v ->
        exists i', assoc m i = Some i' /\ i' < length (b_ds tgt) /\ same5 (getd ds i) (getd (b_ds tgt) i')) /\
@@ -510,4 +520,45 @@ Proof.
   - exact Hch.
   - apply tinv_empty.
   - exists m, tgt. unfold convert. simpl in *. rewrite E. auto 10.
+Qed.
+End Abstract.
+
+(* ---------------------------------------------------------------- native targets *)
+
+(* closing with pending changes *)
+Lemma close_pending b s : native s -> inv12 b -> has_pending_changes b = true ->
+  exists dt ds', step b (Close s) = (mkBuilder ds' (b_vs b ++ [dt]) [] [], RVariant (length (b_vs b))) /\
+                 Permutation dt (current_data b).
+Proof.
+  intros Hs I HP. pose proof (i_wf _ I) as W.
+  assert (Hperm : Permutation (fst (run_strat s (last_variant b) (b_add b) (b_rm b) (b_ds b))) (current_data b)).
+  { pose proof (wf_pre b W) as Hpre.
+    destruct (run_strat_post s _ _ _ Hs Hpre (b_rm b) (last_variant b) eq_refl) as [_ Q2 _ _ _].
+    rewrite Q2. unfold current_data, remove_data. apply Permutation_app_comm. }
+  cbn [step]. rewrite HP.
+  destruct (run_strat s (last_variant b) (b_add b) (b_rm b) (b_ds b)) as [dt ds'] eqn:ERS.
+  exists dt, ds'. split; [reflexivity|exact Hperm].
+Qed.
+
+
+Lemma frame_mframe b b' : frame b b' -> mframe b b'.
+Proof.
+  intros F. constructor; [apply (fr_len _ _ F)|]. intros i Hi.
+  destruct (fr_meta _ _ F i Hi) as (B1 & B2 & B3 & B4 & B5). unfold size, al in *. unfold same5. repeat split; congruence.
+Qed.
+
+Theorem convert_iso ds vs s : src_ok ds vs -> native s ->
+  exists m tgt,
+    convert (ds, vs) s empty_builder = COk (map (fun k => (k, k)) (seq 0 (length vs)), m, tgt) /\
+    b_add tgt = [] /\ b_rm tgt = [] /\ inv12 tgt /\
+    Forall2 (fun v' v => Permutation v' (map (mget m) v)) (b_vs tgt) vs /\
+    (forall v i, In v vs -> In i v ->
+       exists i', assoc m i = Some i' /\ i' < length (b_ds tgt) /\ same5 (getd ds i) (getd (b_ds tgt) i')) /\
+    (forall v1 v2 i1 i2, In v1 vs -> In v2 vs -> In i1 v1 -> In i2 v2 -> mget m i1 = mget m i2 -> i1 = i2).
+Proof.
+  apply (convert_iso_abs inv12 native inv12_empty).
+  - intros b r Hr I. apply step_inv12; auto.
+  - intros b r Hr I. apply frame_mframe. apply (step_facts b r Hr (i_wf _ I)).
+  - intros b i I Hi. apply (i_cur_lt _ I i Hi).
+  - intros b s0 Hs I HP. apply close_pending; auto.
 Qed.
